@@ -31,29 +31,8 @@ def run(ctx, report: Report) -> None:
 
     # ---- R1 ----------------------------------------------------------------------------------------------
     r1 = report.rule('C05-R1', 'list-level facts depend only on the list\'s parse flags', floor=1)
-    rets = [n for n in walk_no_nested(ps) if isinstance(n, ast.Return) and isinstance(n.value, ast.Call)
-            and src.resolve_class_ref(pmod, n.value.func) == 'css_types.SelectorList']
-    if len(rets) != 1:
-        raise AnalysisError('parse_selectors: `return ct.SelectorList(...)` not found')
-    list_args = [a for a in rets[0].value.args[1:] if isinstance(a, ast.Name)]
-    flags_param = ps.args.args[-1].arg
-    loop = next((n for n in ps.body if isinstance(n, ast.Try)), None)
-    for a in list_args:
-        defs = [st for st in ast.walk(ps) if isinstance(st, ast.Assign) and any(
-            isinstance(t, ast.Name) and t.id == a.id or (isinstance(t, ast.Tuple) and any(
-                isinstance(e, ast.Name) and e.id == a.id for e in t.elts)) for t in st.targets)]
-        for d in defs:
-            from_flags = isinstance(d.targets[0], ast.Name) and flags_param in {n.id for n in ast.walk(d.value) if isinstance(n, ast.Name)} \
-                and not any(isinstance(c, ast.Call) and call_name(c) not in ('bool',) for c in ast.walk(d.value))
-            in_loop = loop is not None and any(d is x for x in ast.walk(loop))
-            ok = from_flags and not in_loop
-            r1.instance({'list_fact': a.id, 'definition': unparse(d)[:80], 'from_list_flags_only': ok}, key=f'{a.id}|{unparse(d)[:70]}')
-            r1.obligation(ok)
-            if not ok:
-                r1.violation(f'parse_selectors {a.id} := {unparse(d)[:60]}', pmod.where(d),
-                             f'parse_selectors: `{unparse(d)[:70]}` (re)defines the list-level fact `{a.id}` while the alternatives are '
-                             f'being parsed: one alternative changes the evaluation context (namespace map, iframe restriction, XML '
-                             f'skip) of its siblings, so "A, B" is no longer the union of A and B')
+    from .sem import list_facts_table
+    list_facts_table(ctx, r1)
 
     # ---- R2 ----------------------------------------------------------------------------------------------
     r2 = report.rule('C05-R2', 'alternative loop: OR of ANDs xor is_not', floor=19)
